@@ -313,6 +313,51 @@ def decoder_signatures(ctx, dec, msg, cell):
             ctx.count('dec_bad_stop_signature_refused')
 
 
+def decoder_option_orders(ctx, dec, msg, cell):
+    """per-call options apply to THAT call: full decodes with ignore_value_expectation=True / wire_template_data=False / the defaults
+    give the span from BUFR to 7777, the declared section lengths and the values whatever kind of call (metadata-only, lenient,
+    default) this decoder or another one served just before, in any order"""
+    from pybufrkit.decoder import Decoder
+    rng = ctx.rng
+    b = msg.bytes
+    trailer = rng.choice(TRAILERS)
+    calls = [('info_only', dict(info_only=True)), ('lenient', dict(ignore_value_expectation=True)), ('default', {}),
+             ('unwired', dict(wire_template_data=False)), ('lenient-unwired', dict(ignore_value_expectation=True, wire_template_data=False)),
+             ('info_only-lenient', dict(info_only=True, ignore_value_expectation=True))]
+    order = calls + rng.sample(calls, 3)
+    rng.shuffle(order)
+    other = Decoder()
+    fr = R.parse_frame(b)
+    hist = []
+    for name, kw in order:
+        d = dec if rng.random() < 0.6 else other
+        hist.append(name + ('' if d is dec else '@other'))
+        spec = dict(side='decoder-option-order', ids=msg.ids, edition=msg.edition, cell=cell, hex=(b + trailer).hex(), calls=list(hist))
+        ctx.count('dec_option_order_calls')
+        try:
+            m = d.process(b + trailer, **kw)
+        except Exception as e:
+            ctx.violate('dec/option-order/exception:%s/%s' % (type(e).__name__, name), 'a %s decode of a well-formed message raised %r after the calls %r'
+                        % (name, e, hist[:-1]), spec, exc=e)
+            return
+        if kw.get('info_only'):
+            continue
+        ctx.evaluated(('dec-option-order', tuple(hist)) + tuple(cell), True)
+        if m.serialized_bytes != b:
+            ctx.violate('dec/option-order/serialized-bytes/%s' % name, 'a %s decode after the calls %r: serialized_bytes has %d bytes (ends %r), the message spans %d'
+                        % (name, hist[:-1], len(m.serialized_bytes or b''), (m.serialized_bytes or b'')[-4:], len(b)), spec)
+            return
+        idxs = [sec.get_metadata('index') for sec in m.sections]
+        if idxs != list(fr.order):
+            ctx.violate('dec/option-order/sections/%s' % name, 'a %s decode after the calls %r has sections %r, the message has %r'
+                        % (name, hist[:-1], idxs, list(fr.order)), spec)
+            return
+        dd = diff_message(m, msg.subsets)
+        if dd:
+            ctx.violate('dec/option-order/values-differ/%s' % name, 'a %s decode after the calls %r: decoded %s differ: %r' % (name, hist[:-1], dd[1], jsonable(dd[2:])), spec)
+            return
+
+
 def decoder_wrong_total(ctx, dec, msg, cell):
     """the message's bytes are the span from BUFR to 7777 (what the sections occupy) whatever follows - also when the
     total-length field of section 0 does not agree with that span (the decoder does not use that field in a full decode)"""
@@ -445,6 +490,7 @@ def run(ctx):
                 decoder_wrong_total(ctx, dec, msg, cell)
                 decoder_leading_bytes(ctx, dec, msg, cell)
                 decoder_signatures(ctx, dec, msg, cell)
+                decoder_option_orders(ctx, dec, msg, cell)
     # random richer messages (multi-subset, compressed, long section 2)
     k = 0
     quota = 150 if ctx.quick else 2500
